@@ -307,6 +307,11 @@ def check_map(rec, rng, rules, strict, merge, rd, script, scheme, sub):
                     break
                 if cur in seen:
                     bad = ("C12/redirect-loop", f"{url!r} -> ... -> {cur!r}")
+                    # one mechanism is a recorded finding: an alias rule answers this method, no canonical (non-alias) rule of
+                    # its endpoint does, and the alias "redirects" to its own URL (the key is given only where exactly that holds)
+                    al_ = [r for r in rules if r.get("alias") and R.ok_method(r, method) and any((a_ := R.admits(r, path, st_)) and a_[0] == "match" for st_ in (True, False))]
+                    if nxt_path == path and any(all(not R.ok_method(r, method) for r in rules if r["ep"] == a["ep"] and not r.get("alias")) for a in al_):
+                        bad = ("C12/alias-redirects-to-itself-for-a-method-no-canonical-rule-answers", f"{method} {path!r}: the alias rule admits the method, no canonical rule of its endpoint does; redirected to {cur!r}, i.e. to itself")
                     break
                 seen.add(cur)
             except HTTPException as e3:
@@ -403,6 +408,9 @@ def gen_rules(rng):
         elif rng.random() < 0.25 and not any(s[0] == "var" for s in r["segs"]) and not r["tail"]:
             # alias: another literal path for the same endpoint
             al = dict(r, segs=[("lit", "old")] + list(r["segs"]), alias=True)
+            if rng.random() < 0.3:
+                # the alias answers other / more methods than the rule it stands for
+                al["methods"] = rng.choice([None, ["GET"], ["POST"], ["GET", "POST"]])
             extra.append(al)
     extra = [e for e in extra if e.get("only_if_single_var", True)]
     return rules + extra
